@@ -1,15 +1,18 @@
 import PlasVerif.Proofs.EnableBalanceTable
-import PlasVerif.Proofs.Signature
-import PlasVerif.Proofs.Numbers
+import PlasVerif.Proofs.SignatureSpelling
+import PlasVerif.Proofs.Casts
 import PlasVerif.Proofs.Args
 /-!
 # C05 — Arguments are delimited, typed and bound as the macro's signature declares
 
-Property theorems only; helper lemmas are in `Proofs/{Numbers,Args,Signature,EnableBalance,EnableBalanceTable}.lean`.
-Models: `Model/{Numbers,Args,Signature,EnableBalance}.lean`; specs: `Spec/{Literals,Calls,Signature}.lean`.
+Property theorems only; helper lemmas are in `Proofs/{Numbers,Keyword,Units,Dimen,Glue,Args,Casts,Signature,EnableBalance,
+EnableBalanceTable}.lean`.  Models: `Model/{Numbers,Args,Signature,EnableBalance}.lean`; specs:
+`Spec/{Literals,Conform,Calls,Values,Signature}.lean` (`Conform` = the decidable conformance / follow predicates that are
+the hypotheses below; the driver evaluates them on every generated literal).
 -/
 namespace PlasVerif.Properties.C05
-open PlasVerif.Model.Numbers PlasVerif.Model.Args PlasVerif.Spec.Literals PlasVerif.Spec.Calls
+open PlasVerif.Model.Numbers PlasVerif.Model.Args PlasVerif.Spec.Literals PlasVerif.Spec.Calls PlasVerif.Spec.Conform
+open PlasVerif.Spec.Values
 open PlasVerif.Proofs.Numbers PlasVerif.Proofs.Args
 
 /-! ## signature compiler -/
@@ -23,6 +26,22 @@ theorem compile_render (sig : PlasVerif.Spec.Signature.Sig) (h : PlasVerif.Spec.
   PlasVerif.Proofs.Signature.compile_render sig h
 
 example : PlasVerif.Spec.Signature.WF PlasVerif.Proofs.Signature.exSig = true := by decide
+
+/-- … and in every other spelling: any number of blanks in front, between the words and behind; none needed next to a
+    bracket, a modifier or `=` (`*[opt:dict(;)]<a:str> n:list:int`). -/
+theorem compile_render_spaced (lead : Nat) (gaps : List Nat) (sig : PlasVerif.Spec.Signature.Sig)
+    (h : PlasVerif.Spec.Signature.WF sig = true)
+    (hg : PlasVerif.Spec.Signature.gapsOK (PlasVerif.Spec.Signature.sigItems sig) gaps = true) (hne : sig ≠ []) :
+    PlasVerif.Model.Signature.compileArgs (PlasVerif.Spec.Signature.renderSpaced lead gaps sig) =
+      .ok (PlasVerif.Spec.Signature.expected sig) :=
+  PlasVerif.Proofs.SignatureSpelling.compile_render_spaced lead gaps sig h hg hne
+
+/-- non-vacuity: the example signature with no blank next to any bracket conforms, and compiles as declared -/
+example : PlasVerif.Spec.Signature.gapsOK (PlasVerif.Spec.Signature.sigItems PlasVerif.Proofs.Signature.exSig)
+      [0, 0, 0, 0, 0, 0, 2, 1, 0, 0, 0, 1, 0, 0, 0] = true ∧
+    PlasVerif.Model.Signature.compileArgs (PlasVerif.Spec.Signature.renderSpaced 1 [0, 0, 0, 0, 0, 0, 2, 1, 0, 0, 0, 1, 0, 0, 0]
+      PlasVerif.Proofs.Signature.exSig) = .ok (PlasVerif.Spec.Signature.expected PlasVerif.Proofs.Signature.exSig) :=
+  ⟨by decide, by rfl⟩
 
 /-! ## delimiter readers and the argument loop -/
 
@@ -60,6 +79,105 @@ theorem parse_call (cs : List ArgCall) (rest : List Tok) (h : wfCall cs rest = t
 /-- non-vacuity: `*`, absent `[opt]`, `{a{b}}`, `(x(y))`, bare `z` followed by `R` -/
 example : wfCall [⟨.chr 42, 0, some [.ch 42]⟩, ⟨.pair 91 93, 0, none⟩, ⟨.tok, 1, some [.ch 97, .bg false, .ch 98, .eg false]⟩,
       ⟨.pair 40 41, 0, some [.ch 120, .ch 40, .ch 121, .ch 41]⟩, ⟨.tok, 1, some [.ch 122]⟩] [.ch 82] = true := by decide
+
+/-! ## typing: the casts -/
+
+/-- **List-typed argument.** The written items (brace balanced, the delimiter only inside braces; any delimiter
+    character) are bound as exactly that list: text items stripped, an item containing a group kept as its tokens. -/
+theorem cast_list (d : Nat) (items : List (List Tok)) (hne : items ≠ []) (hok : ∀ it ∈ items, itemOK d it = true) :
+    castList d .none (joinItems d items) = .ok (listVal items) :=
+  PlasVerif.Proofs.Casts.castList_items d items hne hok
+
+example : itemOK 44 [.ch 97, .bg false, .ch 44, .eg false] = true ∧
+    castList 44 .none (joinItems 44 [[.ch 97], [.sp, .ch 98, .sp], [.bg false, .ch 44, .eg false]]) =
+      .ok (listVal [[.ch 97], [.sp, .ch 98, .sp], [.bg false, .ch 44, .eg false]]) :=
+  ⟨by decide, PlasVerif.Proofs.Casts.castList_items 44 _ (by simp) (by decide)⟩
+
+/-- **Dictionary-typed argument.** Plain `key` / `key=value` entries are bound as exactly the prescribed map: value
+    text stripped, a key without `=` bound to True, a repeated key takes the later value. -/
+theorem cast_dict (d : Nat) (hd : d ≠ 61) (es : List Entry) (hes : ∀ e ∈ es, e.ok d = true) :
+    castDict d .none (joinEntries d es) = .ok (dictVal es) :=
+  PlasVerif.Proofs.Casts.castDict_entries d hd es hes
+
+example : (∀ e ∈ [(⟨[.ch 107], some [.ch 118]⟩ : Entry), ⟨[.ch 102], none⟩], e.ok 44 = true) := by decide
+
+/-- **Integer / float / dimension-typed arguments** (`int`, `float`, `dimen`): the content is bound to the TeX value of
+    the literal written, and the stream is left exactly as it was. -/
+theorem cast_int (l : IntLit) (rest : List Tok) (hw : l.wf = true) : internal .int l.render rest = .ok (.int l.den, rest) :=
+  PlasVerif.Proofs.Casts.internal_int l rest hw
+theorem cast_float (l : DecLit) (rest : List Tok) (hw : l.body.wf = true) :
+    internal .float l.render rest = .ok (.rat l.den, rest) :=
+  PlasVerif.Proofs.Casts.internal_float l rest hw
+theorem cast_dimen (l : DimLit) (rest : List Tok) (hw : dimWf false l = true) :
+    internal .dimen l.render rest = .ok (.rat l.den.amount, rest) :=
+  PlasVerif.Proofs.Casts.internal_dimen l rest hw
+
+/-- **TeX-style scanner types** (`Number`, `Dimen`, `Glue`): the literal is read straight from the stream after the
+    blanks, bound to its TeX value, and exactly it is consumed. -/
+theorem scanner_number (a : Arg) (l : IntLit) (k : Nat) (rest : List Tok) (h : a.ty = .tNumber) (hw : l.wf = true)
+    (hf : intFollow l rest = true) :
+    ∃ rest', readArgument a (spaces k ++ (l.render ++ rest)) = .ok (.int l.den, none, rest') ∧ sameText rest' rest :=
+  PlasVerif.Proofs.Casts.scanner_number a l k rest h hw hf
+theorem scanner_dimen (a : Arg) (l : DimLit) (k : Nat) (rest : List Tok) (h : a.ty = .tDimen) (hw : dimWf false l = true)
+    (hf : dimFollow l rest = true) :
+    readArgument a (spaces k ++ (l.render ++ rest)) = .ok (.rat l.den.amount, none, rest) :=
+  PlasVerif.Proofs.Casts.scanner_dimen a l k rest h hw hf
+theorem scanner_glue (a : Arg) (g : GlueLit) (k : Nat) (rest : List Tok) (h : a.ty = .tGlue) (hw : glueWf g = true)
+    (hf : glueFollow g rest = true) :
+    ∃ v, readArgument a (spaces k ++ (g.render ++ rest)) = .ok (.glue v, none, rest) ∧
+      PlasVerif.Proofs.Glue.glueDecode v = g.den :=
+  PlasVerif.Proofs.Casts.scanner_glue a g k rest h hw hf
+
+/-- **`Macro.parse` as a whole.** For every list of declared arguments (spec + type), every conforming call, and
+    values such that the cast of what is written at a position yields the value and leaves the stream alone (`CastsTo`;
+    instances for the untyped, str, list, dict, int, float and dimen types are `castsTo_*` in `Proofs/Casts.lean`, built
+    on the theorems above): the argument loop binds every declared argument exactly once, in declaration order, to that
+    value (absent optional arguments to nothing), produces one source piece per argument, and leaves exactly what
+    follows the call. -/
+theorem parse_binds (bs : List Bound) (rest : List Tok) (hb : ∀ b ∈ bs, b.ok)
+    (hw : wfCall (bs.map (·.call)) rest = true) :
+    ∃ srcs, parse (bs.map (·.arg)) (renderCall (bs.map (·.call)) ++ rest) =
+      .ok (bs.map (·.val), srcs,
+           if endsAbsent (bs.map (·.call)) then readOptionalSpaces rest else rest) ∧ srcs.length = bs.length :=
+  PlasVerif.Proofs.Args.parse_binds bs rest hb hw
+
+/-- … and with one more argument of any type in last position (the TeX-style scanner types `Number`, `Dimen`, `Glue`
+    are generated there; `scanner_number/dimen/glue` give its `readArgument` result): everything before it is bound as in
+    `parse_binds`, it is bound to its value, and what it leaves is what is left. -/
+theorem parse_binds_last (bs : List Bound) (a : Arg) (tail r' : List Tok) (v : Val) (s : Option (List Tok))
+    (hb : ∀ b ∈ bs, b.ok) (hw : wfCall (bs.map (·.call)) tail = true)
+    (hlast : readArgument a tail = .ok (v, s, r')) :
+    ∃ srcs, parse (bs.map (·.arg) ++ [a]) (renderCall (bs.map (·.call)) ++ tail) =
+      .ok (bs.map (·.val) ++ [v], srcs ++ [s], r') ∧ srcs.length = bs.length :=
+  PlasVerif.Proofs.Args.parse_binds_last bs a tail r' v s hb hw hlast
+
+/-- the `CastsTo` instances that feed `parse_binds` -/
+theorem castsTo_instances :
+    (∀ (a : Arg) toks, a.ty = .none ∨ a.ty = .nox → CastsTo a toks (.toks toks)) ∧
+    (∀ (a : Arg) toks, a.ty = .str → CastsTo a toks (.str (textOf toks))) ∧
+    (∀ (a : Arg) items, a.ty = .list → a.sub = .none → items ≠ [] → (∀ it ∈ items, itemOK a.delim it = true) →
+        CastsTo a (joinItems a.delim items) (listVal items)) ∧
+    (∀ (a : Arg) es, a.ty = .dict → a.sub = .none → a.delim ≠ 61 → (∀ e ∈ es, Entry.ok a.delim e = true) →
+        CastsTo a (joinEntries a.delim es) (dictVal es)) ∧
+    (∀ (a : Arg) (l : IntLit), a.ty = .int → l.wf = true → CastsTo a l.render (.int l.den)) ∧
+    (∀ (a : Arg) (l : DecLit), a.ty = .float → l.body.wf = true → CastsTo a l.render (.rat l.den)) ∧
+    (∀ (a : Arg) (l : DimLit), a.ty = .dimen → dimWf false l = true → CastsTo a l.render (.rat l.den.amount)) :=
+  ⟨PlasVerif.Proofs.Casts.castsTo_plain, PlasVerif.Proofs.Casts.castsTo_str, PlasVerif.Proofs.Casts.castsTo_list,
+   PlasVerif.Proofs.Casts.castsTo_dict, PlasVerif.Proofs.Casts.castsTo_int, PlasVerif.Proofs.Casts.castsTo_float,
+   PlasVerif.Proofs.Casts.castsTo_dimen⟩
+
+/-- non-vacuity of `parse_binds`: `\foo*[k=v,f]{12}` for `* [opt:dict] n:int`, followed by `R` -/
+example : ∃ bs : List Bound, bs.length = 3 ∧ (∀ b ∈ bs, b.ok) ∧ wfCall (bs.map (·.call)) [.ch 82] = true := by
+  refine ⟨[⟨⟨.chr 42, .none, 44, .none⟩, ⟨.chr 42, 0, some [.ch 42]⟩, .toks [.ch 42]⟩,
+           ⟨⟨.pair 91 93, .dict, 44, .none⟩, ⟨.pair 91 93, 0, some (joinEntries 44 [⟨[.ch 107], some [.ch 118]⟩, ⟨[.ch 102], none⟩])⟩,
+             dictVal [⟨[.ch 107], some [.ch 118]⟩, ⟨[.ch 102], none⟩]⟩,
+           ⟨⟨.tok, .int, 44, .none⟩, ⟨.tok, 0, some (IntLit.render ⟨⟨0, []⟩, .dec [1, 2], false⟩)⟩, .int 12⟩], rfl, ?_, by decide⟩
+  intro b hb
+  simp only [List.mem_cons, List.mem_nil_iff, or_false] at hb
+  rcases hb with rfl | rfl | rfl
+  · exact ⟨rfl, rfl, PlasVerif.Proofs.Casts.castsTo_plain _ _ (Or.inl rfl)⟩
+  · exact ⟨rfl, rfl, PlasVerif.Proofs.Casts.castsTo_dict _ _ rfl rfl (by decide) (by decide)⟩
+  · exact ⟨rfl, rfl, PlasVerif.Proofs.Casts.castsTo_int _ ⟨⟨0, []⟩, .dec [1, 2], false⟩ rfl (by decide)⟩
 
 /-! ## numeric literals -/
 
@@ -99,106 +217,91 @@ theorem unit_factors_are_TeX : PlasVerif.Generated.Units.dimenUnits = texUnits :
 theorem fil_units_decode : PlasVerif.Generated.Units.filUnits.map (fun u => (u.1, decode u.2)) =
     filNames.map (fun u => (u.1, (u.2, (1 : Rat)))) := by decide +kernel
 
-/-- **Multiples of fil keep their order** (the repaired product of `readDimen`): for each of the three fil units of the
-    regenerated table and every amount within TeX's own range, the value decodes to that order and that amount. -/
-theorem combine_fil (u : Rat) (k : Nat) (hu : (u, k) ∈ [((2000000001 : Rat), 1), (4000000001, 2), (6000000001, 3)])
-    (a : Rat) (h1 : -2000000000 < a) (h2 : a < 2000000000) : decode (combine a u) = (k, a) := by
-  simp only [List.mem_cons, Prod.mk.injEq, List.mem_nil_iff, or_false] at hu
-  rcases hu with ⟨rfl, rfl⟩ | ⟨rfl, rfl⟩ | ⟨rfl, rfl⟩
-  · rw [combine_fil_unit _ 2000000000 1 (Or.inl ⟨rfl, rfl, rfl⟩)]; exact decode_enc _ 1 (Or.inl ⟨rfl, rfl⟩) a h1 h2
-  · rw [combine_fil_unit _ 4000000000 2 (Or.inr (Or.inl ⟨rfl, rfl, rfl⟩))]; exact decode_enc _ 2 (Or.inr (Or.inl ⟨rfl, rfl⟩)) a h1 h2
-  · rw [combine_fil_unit _ 6000000000 3 (Or.inr (Or.inr ⟨rfl, rfl, rfl⟩))]; exact decode_enc _ 3 (Or.inr (Or.inr ⟨rfl, rfl⟩)) a h1 h2
+/-- **Multiples of fil keep their order** (the repaired product of `readDimen`): for every fil order and every amount
+    within TeX's own range, the encoded value decodes to that order and that amount. -/
+theorem combine_fil (k : Nat) (hk : k = 1 ∨ k = 2 ∨ k = 3) (a : Rat) (h1 : -2000000000 < a) (h2 : a < 2000000000) :
+    decode (combine a (1 + 2000000000 * (k : Rat))) = (k, a) :=
+  PlasVerif.Proofs.Dimen.combine_fil k hk a h1 h2
 
-/-- finite units scale: the value is the product, and it decodes as a finite dimension while it stays in TeX's range -/
-theorem combine_finite (a u : Rat) (hu1 : -2000000000 < u) (hu2 : u < 2000000000) : combine a u = a * u := by
-  simp only [combine, absR]
-  split <;> split <;> first | rfl | (exfalso; grind)
+/-- finite units scale: the value is the exact product -/
+theorem combine_finite (a u : Rat) (hu1 : -2000000000 < u) (hu2 : u < 2000000000) : combine a u = a * u :=
+  PlasVerif.Proofs.Dimen.combine_finite a u hu1 hu2
 
-/-- spelled in any letter case -/
-def sameWord (w name : List Nat) : Bool := w.map upper == name.map upper
+/-- **The keyword matcher.** `readKeyword`'s word loop on a word spelled in any letter case followed by anything:
+    every earlier word of the list that clashes with the spelled one, or extends it while the next token does not
+    continue it, fails and pushes back exactly what it read; the first spelled word is taken and exactly it plus one
+    optional space is consumed. -/
+theorem keyword_select (T : List (List Nat × Rat)) (i : Nat) (w : List Nat × Rat) (sp : List Nat) (r : List Tok)
+    (hi : T[i]? = some w) (hne : w.1 ≠ []) (hs : sameWord sp w.1 = true)
+    (hf : ∀ x ∈ T.take i, PlasVerif.Proofs.Keyword.failsOn x.1 w.1 r = true) :
+    tryWords T (sp.map .ch ++ r) = (some w, readOneOptionalSpace r) :=
+  PlasVerif.Proofs.Keyword.tryWords_select T i w sp r hi hne hs hf
 
-/-- conforming dimension literal: well-formed constant, unit and `true` spelled in any case, value within TeX's range -/
-def dimWf (l : DimLit) : Bool :=
-  match l.body with
-  | .inr _ => true
-  | .inl d =>
-    d.wf &&
-    (match l.unit.tru with | none => true | some (w, _) => sameWord w kwTrue) &&
-    (match l.unit.kind with
-     | .phys i => (match texUnits[i]? with | some u => sameWord l.unit.spelling u.1 | none => false)
-     | .fil i => (match filNames[i]? with | some u => sameWord l.unit.spelling u.1 | none => false)
-     | .reg _ => true) &&
-    decide (-2000000000 < l.den.amount ∧ l.den.amount < 2000000000)
+/-- **The unit matcher.** `readUnitOfMeasure`, called with `dimen.units` (or, after `plus`/`minus`, with the fil units
+    appended), on a unit of measure as written — blanks, optional `true` in any case and blanks, one of the 11 units
+    (or 3 fil orders) in any letter case, one optional space — followed by anything (after `fil`/`fill` not an `l`),
+    returns exactly that unit's value in sp (fil: 1 plus the offset of its order), all within range, and consumes
+    exactly the unit. -/
+theorem unit_matcher_phys (allowFil : Bool) (u : UnitLit) (i : Nat) (Z : List Tok) (hk : u.kind = .phys i)
+    (hw : unitWf allowFil u = true) :
+    ∃ uv : Rat, readUnit (PlasVerif.Proofs.Dimen.tableFor allowFil) (u.render ++ Z) =
+        (uv, readOneOptionalSpace (optSpace u.space ++ Z)) ∧
+      u.kind.den = (0, uv) ∧ -2000000000 < uv ∧ uv < 2000000000 :=
+  PlasVerif.Proofs.Dimen.unit_phys allowFil u i Z hk hw
 
-/-- what follows cannot continue the unit: no blank unless the optional space was written, no `l` after `fil`/`fill` -/
-def dimFollow (l : DimLit) (rest : List Tok) : Bool :=
-  match l.body with
-  | .inr _ => true
-  | .inl _ =>
-    match l.unit.kind with
-    | .reg _ => true
-    | .phys _ => l.unit.space || noSp rest
-    | .fil _ => (l.unit.space || noSp rest) &&
-        (match rest with | .ch c :: _ => !(l.unit.space == false && upper c == 76) | .cs [c] false :: _ => upper c != 76 | _ => true)
+theorem unit_matcher_fil (u : UnitLit) (j : Nat) (Z : List Tok) (hk : u.kind = .fil j) (hw : unitWf true u = true)
+    (hL : restOK 108 (optSpace u.space ++ Z) = true) :
+    ∃ k : Nat, readUnit stretchUnits (u.render ++ Z) =
+        (1 + 2000000000 * (k : Rat), readOneOptionalSpace (optSpace u.space ++ Z)) ∧
+      u.kind.den = (k, 1) ∧ (k = 1 ∨ k = 2 ∨ k = 3) :=
+  PlasVerif.Proofs.Dimen.unit_fil u j Z hk hw hL
 
-/-- **Dimensions, full statement** (every unit, `true`, any letter case, optional blanks, fil orders, register
-    multiples): kept as a statement; see `dimen_denotes_partial` for what is proved and what is missing. -/
-def dimen_denotes_statement : Prop :=
-  ∀ (l : DimLit) (rest : List Tok), dimWf l = true → dimFollow l rest = true →
-    ∃ v rest', readDimen stretchUnits (l.render ++ rest) = .ok (v, rest') ∧
-      decode v = (l.den.order, l.den.amount) ∧ sameText rest' rest
+/-- a register as unit ("register multiple") -/
+theorem unit_matcher_reg (T : List (List Nat × Rat)) (u : UnitLit) (v : Int) (Z : List Tok) (hk : u.kind = .reg v) :
+    readUnit T (u.render ++ Z) = ((v : Rat), Z) ∧ u.kind.den = (0, (v : Rat)) :=
+  PlasVerif.Proofs.Dimen.unit_reg T u v Z hk
 
-/-- **Dimensions, proved part.** For every sign run and every well-formed decimal constant followed by anything that
-    cannot continue it, `readDimen` returns the (repaired) product of the signed TeX value of the constant with the
-    value `readUnitOfMeasure` reads next, and leaves what that reader leaves; with `unit_factors_are_TeX`
-    (the table `readUnitOfMeasure` looks units up in is TeX's), `combine_finite` (finite units: exact product) and
-    `combine_fil` (fil units: order kept, amount exact) this gives the denotation once the unit is recognised.
-    MISSING for the full statement: the lemma that the keyword matcher (`readKeyword`/`matchWord` over the 11+3 unit
-    names, optional `true`, any letter case, push-back of partial matches) recognises exactly the written unit and
-    consumes exactly it — that part is carried by the `lit`/`num` correspondence streams (every unit, every case
-    pattern, every follower kind), and by kernel-checked instances below. -/
-theorem dimen_denotes_partial (units : List (List Nat × Rat)) (sg : Signs) (d : DecBody) (X : List Tok)
-    (hw : d.wf = true) (hf : decFollow d X = true) :
-    readDimenWith combine units (sg.render ++ (d.render ++ X)) =
-      .ok (combine ((sg.den : Rat) * d.den) (readUnit units (settle X)).1, (readUnit units (settle X)).2) :=
-  dimen_compose combine units sg d X hw hf
+/-- **Dimensions** (every unit, `true`, any letter case, optional blanks, fil orders after `plus`/`minus`, register
+    multiples, bare registers, any sign run, every fraction form): every conforming dimension literal followed by
+    tokens that cannot continue it is read as a value that decodes to the order and amount TeX assigns, and exactly
+    the literal is consumed.  `allowFil` is the calling context: `false` = `readDimen()` with `dimen.units`,
+    `true` = after `plus`/`minus`. -/
+theorem dimen_denotes (allowFil : Bool) (l : DimLit) (rest : List Tok) (hw : dimWf allowFil l = true)
+    (hf : dimFollow l rest = true) :
+    ∃ v, readDimenWith combine (PlasVerif.Proofs.Dimen.tableFor allowFil) (l.render ++ rest) = .ok (v, rest) ∧
+      decode v = (l.den.order, l.den.amount) := by
+  have hL : filOK l rest = true := by unfold dimFollow at hf; simp only [Bool.and_eq_true] at hf; exact hf.1
+  obtain ⟨v, hv, hd⟩ := PlasVerif.Proofs.Dimen.dimen_core allowFil l rest hw hL
+  rw [PlasVerif.Proofs.Dimen.dimRest_follow l rest hf] at hv
+  exact ⟨v, hv, hd⟩
 
-/-- kernel-checked instances of the full statement: `- 1.5 true In ` = −1.5in, `,5 FILL` (after plus) = 0.5fill, `2\reg` -/
+/-- the two tables of the statement are the code's: `readDimen()` and `readDimen(units=dimen.units+['filll','fill','fil'])` -/
+example : PlasVerif.Proofs.Dimen.tableFor false = PlasVerif.Generated.Units.dimenUnits ∧
+    PlasVerif.Proofs.Dimen.tableFor true = stretchUnits := ⟨rfl, rfl⟩
+
+/-- non-vacuity: `- 1.5 true In ` followed by `R`; `,5 FILL` followed by `x`; `2\reg` -/
 example :
-    ((readDimen stretchUnits ([.ch 45, .sp, .ch 49, .ch 46, .ch 53, .sp, .ch 116, .ch 114, .ch 117, .ch 101, .sp, .ch 73, .ch 110, .sp, .ch 82])).toOption.map
-        (fun r => (decode r.1, r.2)) = some ((0, -(3 : Rat) / 2 * ((7227 : Rat) / 100 * 65536)), [.ch 82])) ∧
-    ((readDimen stretchUnits ([.ch 44, .ch 53, .sp, .ch 70, .ch 73, .ch 76, .ch 76, .ch 120])).toOption.map
-        (fun r => (decode r.1, r.2)) = some ((2, (1 : Rat) / 2), [.ch 120])) ∧
-    ((readDimen stretchUnits ([.ch 50, .reg 655 false, .ch 120])).toOption.map
-        (fun r => (decode r.1, r.2)) = some ((0, 1310), [.ch 120])) := by decide +kernel
+    dimWf false ⟨⟨0, [(true, 1)]⟩, .inl ⟨[1], some false, [5]⟩, ⟨1, some ([116, 114, 117, 101], 1), .phys 2, [73, 110], true⟩⟩ = true ∧
+    dimFollow ⟨⟨0, [(true, 1)]⟩, .inl ⟨[1], some false, [5]⟩, ⟨1, some ([116, 114, 117, 101], 1), .phys 2, [73, 110], true⟩⟩ [.ch 82] = true ∧
+    dimWf true ⟨⟨0, []⟩, .inl ⟨[], some true, [5]⟩, ⟨1, none, .fil 1, [70, 73, 76, 76], false⟩⟩ = true ∧
+    dimFollow ⟨⟨0, []⟩, .inl ⟨[], some true, [5]⟩, ⟨1, none, .fil 1, [70, 73, 76, 76], false⟩⟩ [.ch 120] = true ∧
+    dimWf false ⟨⟨0, []⟩, .inl ⟨[2], none, []⟩, ⟨0, none, .reg 655, [], false⟩⟩ = true := by decide +kernel
 
-/-- conforming glue literal -/
-def glueWf (g : GlueLit) : Bool :=
-  dimWf g.dim &&
-  (match g.dim.body with | .inr _ => g.plus.isNone && g.minus.isNone | .inl _ => true) &&
-  (match g.plus with | none => true | some (_, w, d) => sameWord w kwPlus && dimWf d) &&
-  (match g.minus with | none => true | some (_, w, d) => sameWord w kwMinus && dimWf d)
+/-- **Glue**: every conforming glue literal (sign runs, dimension, optional `plus` stretch and `minus` shrink with
+    keywords in any letter case, fil orders, register multiples; a bare register = internal glue) followed by tokens
+    that cannot continue it is read as the TeX value of its three parts (orders decoded), and exactly the literal is
+    consumed. -/
+theorem glue_denotes (g : GlueLit) (rest : List Tok) (hw : glueWf g = true) (hf : glueFollow g rest = true) :
+    ∃ v, readGlue (g.render ++ rest) = .ok (v, rest) ∧ PlasVerif.Proofs.Glue.glueDecode v = g.den :=
+  PlasVerif.Proofs.Glue.glue_reads g rest hw hf
 
-/-- **Glue, full statement**: kept as a statement (it needs `dimen_denotes_statement` three times plus the `plus`/`minus`
-    keyword lemma); carried by the `lit` stream (glue literals with every unit, fil order, case and follower). -/
-def glue_denotes_statement : Prop :=
-  ∀ (g : GlueLit) (rest : List Tok), glueWf g = true →
-    (match g.minus, g.plus with
-     | some (_, _, d), _ => dimFollow d rest
-     | none, some (_, _, d) => dimFollow d rest
-     | none, none => dimFollow g.dim rest) = true →
-    (match rest with | .ch c :: _ => upper c != 80 && upper c != 77 | .cs [c] false :: _ => upper c != 80 && upper c != 77 | _ => true) = true →
-    ∃ v rest', readGlue (g.render ++ rest) = .ok (v, rest') ∧
-      (⟨⟨(decode v.dim).1, (decode v.dim).2⟩, v.stretch.map (fun x => ⟨(decode x).1, (decode x).2⟩),
-        v.shrink.map (fun x => ⟨(decode x).1, (decode x).2⟩)⟩ : GlueVal) = g.den ∧ sameText rest' rest
-
-/-- kernel-checked instance: `1pt plus 2fil minus 1.5 fill\relax` -/
+/-- non-vacuity: `1pt plus 2fil minus 1.5 fill` followed by `\relax` conforms -/
 example :
-    (readGlue ([.ch 49, .ch 112, .ch 116, .sp, .ch 112, .ch 108, .ch 117, .ch 115, .sp, .ch 50, .ch 102, .ch 105, .ch 108, .sp,
-        .ch 109, .ch 105, .ch 110, .ch 117, .ch 115, .sp, .ch 49, .ch 46, .ch 53, .sp, .ch 102, .ch 105, .ch 108, .ch 108,
-        .cs [114, 101, 108, 97, 120] false])).toOption.map
-      (fun r => (decode r.1.dim, r.1.stretch.map decode, r.1.shrink.map decode, r.2)) =
-    some ((0, 65536), some (1, 2), some (2, (3 : Rat) / 2), [.cs [114, 101, 108, 97, 120] false]) := by decide +kernel
+    let pt : UnitLit := ⟨0, none, .phys 0, [112, 116], false⟩
+    let g : GlueLit := ⟨⟨0, []⟩, ⟨⟨0, []⟩, .inl ⟨[1], none, []⟩, pt⟩,
+      some (1, [112, 108, 117, 115], ⟨⟨1, []⟩, .inl ⟨[2], none, []⟩, ⟨0, none, .fil 2, [102, 105, 108], false⟩⟩),
+      some (1, [109, 105, 110, 117, 115], ⟨⟨1, []⟩, .inl ⟨[1], some false, [5]⟩, ⟨1, none, .fil 1, [102, 105, 108, 108], false⟩⟩)⟩
+    glueWf g = true ∧ glueFollow g [.cs [114, 101, 108, 97, 120] false] = true := by decide +kernel
 
 /-- The pinned code before the D14 repair read `1pt plus 2fil` as `2fill` (kernel-checked witness). -/
 theorem asIs_fil_counterexample :
